@@ -119,7 +119,8 @@ def classify(lines):
 
 
 def swapcase_some(rng, s):
-    return "".join(c.swapcase() if rng.random() < 0.5 else c for c in s)
+    # ASCII letters only: for other scripts upper/lower do not round-trip (sharp s, final sigma)
+    return "".join(c.swapcase() if c.isascii() and rng.random() < 0.5 else c for c in s)
 
 
 def rewrite(rng, text, kind, keys_caseless):
@@ -205,9 +206,24 @@ def rewrite(rng, text, kind, keys_caseless):
         lines[i] = "".join(out)
         return join(lines), True, dep[i]
     if kind == "case-key":
-        if not keys_caseless:
+        if keys_caseless is False:
             return text, False, 0
         idx = [i for i, e in enumerate(evs) if e[0] == "key"]
+        if keys_caseless is not True:
+            # per container: only key lines that sit in a container with a case-insensitive key type
+            sm = keys_caseless
+            stack = [sm.top]
+            ok = set()
+            for i, e in enumerate(evs):
+                if e[0] == "open":
+                    if not e[3]:
+                        stack.append(sm.types.get(e[1]))
+                elif e[0] == "close":
+                    if len(stack) > 1:
+                        stack.pop()
+                elif e[0] == "key" and stack[-1] is not None and stack[-1].kt != "identifier":
+                    ok.add(i)
+            idx = [i for i in idx if i in ok]
         if not idx:
             return text, False, 0
         i = rng.choice(idx)
@@ -381,7 +397,7 @@ def run_shard(spec):
             texts = [gen.gen_text(rng, sm, f) for f in (0, 0, 1, 2)]
             from zcv.props import c06
             texts = [c06.add_defines(rng, t) if rng.random() < 0.5 else t for t in texts]
-            caseless = keys_caseless(ast)
+            caseless = True if keys_caseless(ast) else sm
         for text in texts:
             if not text.strip():
                 continue
